@@ -25,6 +25,7 @@ import traceback
 from vlib import env
 
 MAX_SAMPLES = 4
+FLOOR_FRACTION = 0.25
 MAX_REPLAYS = 6
 
 
@@ -238,13 +239,18 @@ def finish(mod, check_id, tier, seed, plan, records, covers, inconclusive, t0):
             funcs[k] = funcs.get(k, 0) + v
 
     # floors -> inconclusive
+    # plan floors are the counts expected on an idle 16-core machine; a run is inconclusive when a
+    # deciding monitor saw less than FLOOR_FRACTION of that (slow or loaded machines must not turn a
+    # time-budgeted run into a false "inconclusive", but a monitor that is bypassed still shows)
     floors = plan.get('floors', {})
-    for k, minimum in floors.items():
+    for k, nominal in floors.items():
         have = counts.get(k, cells.get(k, 0))
+        minimum = max(1, int(nominal * FLOOR_FRACTION))
         if have < minimum:
             inconclusive.append('monitor counter %s=%d below its floor %d' % (k, have, minimum))
-    if evaluations < plan.get('min_evals', 1):
-        inconclusive.append('only %d evaluations (< %d)' % (evaluations, plan.get('min_evals', 1)))
+    min_evals = max(1, int(plan.get('min_evals', 1) * FLOOR_FRACTION))
+    if evaluations < min_evals:
+        inconclusive.append('only %d evaluations (< %d)' % (evaluations, min_evals))
 
     findings = load_findings()
     known_hits = {}
